@@ -83,5 +83,35 @@ func pubOrderFacts(repo string, w *bytes.Buffer) error {
 	if err := emit("client.go", "publishHandler", "OnMsgArrived", "publishOrder"); err != nil {
 		return err
 	}
-	return emit("server.go", "sendWillLocked", "OnWillPublish", "willOrder")
+	if err := emit("server.go", "sendWillLocked", "OnWillPublish", "willOrder"); err != nil {
+		return err
+	}
+	// the other side of the race: subscribeHandler installs the subscription (3) and then reads the retained store (4)
+	fd, err := find("client.go", "subscribeHandler")
+	if err != nil {
+		return err
+	}
+	type sev struct {
+		pos  token.Pos
+		code int
+	}
+	var sevs []sev
+	ast.Inspect(fd.Body, func(n ast.Node) bool {
+		if c, ok := n.(*ast.CallExpr); ok {
+			switch p := selPath(c.Fun); {
+			case strings.HasSuffix(p, ".subscriptionsDB.Subscribe"):
+				sevs = append(sevs, sev{c.Pos(), 3})
+			case strings.HasSuffix(p, ".retainedDB.GetMatchedMessages"):
+				sevs = append(sevs, sev{c.Pos(), 4})
+			}
+		}
+		return true
+	})
+	sort.Slice(sevs, func(i, j int) bool { return sevs[i].pos < sevs[j].pos })
+	var ns []string
+	for _, e := range sevs {
+		ns = append(ns, fmt.Sprint(e.code))
+	}
+	fmt.Fprintf(w, "/-- `subscribeHandler` in source order: 3 = the subscription is installed (subscriptionsDB.Subscribe), 4 = the retained store is read for the replay (retainedDB.GetMatchedMessages) -/\ndef subscribeOrderN : List Nat :=\n  [%s]\n\n", strings.Join(ns, ", "))
+	return nil
 }
